@@ -49,7 +49,12 @@ Theorem Indexer_model_is_source_partial :
   (forall s n, src_IndexCtx_resolve_id s n = resolve_id s n) /\
   (forall r k s, s_trace s <> [] -> src_IndexCtx_error r k s = err r k s) /\
   (forall s, forget (src_IndexCtx_next_anonymous_def_name s) = next_anonymous s) /\
+  src_IndexCtx_new 0 = st0 /\
+  (forall s, src_IndexCtx_finish s =
+     ((s_recs s, s_mcs s, s_leaves s, s_nclass s, s_ndef s, s_nmc s, s_ndset s, s_pos s, s_refs s, s_uses s), s_diags s)) /\
   (* index.rs *)
+  (forall w, ws_files w <> [] ->
+     src_index (ws_files w) (iterM (index_stmt (ws_files w) (ws_fuel w))) = src_IndexCtx_finish (index_ws w)) /\
   (forall i s, src_utils_identifier i s = (loc <- here (i_rng i) ;; ret (i_name i, loc)) s) /\
   (forall files n,
      (forall v s, snd (src_ix_Dump (index_value n) v s) = snd (index_stmt files (S n) (SDump v) s)) /\
